@@ -54,7 +54,7 @@ INF = math.inf
 RTOL, ATOL = 1e-5, 1e-8
 SOLVER_TOL, SOLVER_KMAX = 1e-12, 20000
 W_LO, W_HI, P_ZERO = 0.05, 0.6, 0.12
-BOUND = ("FGGs within the bound of G (<= 3 nonterminals, <= 2 rules each, <= 3 nodes / 3 edges per rhs, arity <= 2, "
+BOUND = ("[+ hand-written: valueless rules in every rule order, recursion through duplicated externals / patterned diagonal factors] FGGs within the bound of G (<= 3 nonterminals, <= 2 rules each, <= 3 nodes / 3 edges per rhs, arity <= 2, "
          "domain sizes 1..3; non-recursive skeletons and recursive families) plus hand-written grammars with up to 4 "
          "nodes / 4 edges per rhs (shared factors, unreachable factors, edgeless nodes, duplicated externals, start arity "
          "1-2, node private to the first edges), weights re-drawn in [0.05, 0.6] with exact zeros, finite well-conditioned "
@@ -176,9 +176,145 @@ def handwritten() -> List[dict]:
     return out
 
 
+def _rule_orders(g: dict, lhs: str) -> List[dict]:
+    """the grammar once per order of the rules of `lhs` (the other rules keep their places)."""
+    pos = [i for i, r in enumerate(g["rules"]) if r["lhs"] == lhs]
+    out = []
+    for k, perm in enumerate(itertools.permutations(pos)):
+        h = json.loads(json.dumps(g))
+        for p, q in zip(pos, perm):
+            h["rules"][p] = json.loads(json.dumps(g["rules"][q]))
+        h["meta"] = {"family": g["meta"]["family"] + f"-order{k}"}
+        out.append(h)
+    return out
+
+
+def handwritten_extra() -> List[dict]:
+    """Shapes that only C03 uses (C11 keeps to handwritten()):
+    (1) a rule that evaluates to NOTHING -- it uses an unproductive nonterminal of the same SCC, so its value is zero and
+        sum_product_edges returns None in the first iterations -- listed before / between / after productive rules of the
+        same left-hand side, in every rule order (J_log zips rules with their softmax weights);
+    (2a) recursion through a rule with a DUPLICATED external node, X(v, v) with ext = [v, v]: the nonterminal's
+        sum-product is a diagonal (non-dense) PatternedTensor, so the cotangent handed to multi_solve in backward()
+        has NaN as its default;
+    (2b) the same through an equality factor given as a PATTERNED weight (recipe key "patterned": {terminal: "diag"
+        | "eye"}: the FiniteFactor's weights are PatternedTensor(vector, [k], [k, k]) resp. PatternedTensor.eye)."""
+    T, N = True, False
+    mk = G._mk
+    out: List[dict] = []
+    # (1) X -> U c | X a | b ; U -> X U          (U is unproductive: least fixed point 0)
+    g = mk({"N0": 2}, {"S": ([], N), "X": ([], N), "U": ([], N), "a": ([], T), "b": ([], T), "c": ([], T)}, "S",
+           [("S", [], [("X", [])], []),
+            ("X", [], [("U", []), ("c", [])], []), ("X", [], [("X", []), ("a", [])], []), ("X", [], [("b", [])], []),
+            ("U", [], [("X", []), ("U", [])], [])],
+           {"a": 0.3, "b": 0.4, "c": 0.5}, {"family": "unproductive-rule-nullary"})
+    out += _rule_orders(g, "X")
+    g = mk({"N0": 2}, {"S": ([], N), "X": (["N0"], N), "U": (["N0"], N), "a": (["N0", "N0"], T), "b": (["N0"], T), "c": (["N0"], T)}, "S",
+           [("S", ["N0"], [("X", [0]), ("c", [0])], []),
+            ("X", ["N0"], [("U", [0]), ("c", [0])], [0]), ("X", ["N0", "N0"], [("X", [1]), ("a", [0, 1])], [0]),
+            ("X", ["N0"], [("b", [0])], [0]),
+            ("U", ["N0", "N0"], [("X", [0]), ("U", [1])], [0])],
+           {"a": [[0.3, 0.1], [0.2, 0.25]], "b": [0.4, 0.15], "c": [0.5, 0.35]}, {"family": "unproductive-rule-arity1"})
+    out += _rule_orders(g, "X")
+    #     S -> X c | a | a d ; X -> b X S          (X has no base case)
+    g = mk({"N0": 2}, {"S": ([], N), "X": ([], N), "a": ([], T), "b": ([], T), "c": ([], T), "d": ([], T)}, "S",
+           [("S", [], [("X", []), ("c", [])], []), ("S", [], [("a", [])], []), ("S", [], [("a", []), ("d", [])], []),
+            ("X", [], [("b", []), ("X", []), ("S", [])], [])],
+           {"a": 0.3, "b": 0.4, "c": 0.5, "d": 0.6}, {"family": "unproductive-first-rule-of-start-nullary"})
+    out += _rule_orders(g, "S")
+    g = mk({"N0": 2}, {"S": (["N0"], N), "X": (["N0"], N), "a": (["N0"], T), "b": (["N0", "N0"], T), "c": (["N0"], T), "d": (["N0"], T)}, "S",
+           [("S", ["N0"], [("X", [0]), ("c", [0])], [0]), ("S", ["N0"], [("a", [0])], [0]), ("S", ["N0"], [("a", [0]), ("d", [0])], [0]),
+            ("X", ["N0", "N0"], [("b", [0, 1]), ("X", [1]), ("S", [0])], [0])],
+           {"a": [0.3, 0.2], "b": [[0.4, 0.1], [0.3, 0.2]], "c": [0.5, 0.45], "d": [0.6, 0.1]},
+           {"family": "unproductive-first-rule-of-start-arity1"})
+    out += _rule_orders(g, "S")
+    for d in (2, 3):
+        v1 = [0.3, 0.5, 0.2][:d]
+        v2 = [0.2, 0.4, 0.35][:d]
+        m1 = [row[:d] for row in [[0.5, 0.1, 0.3], [0.2, 0.6, 0.15], [0.25, 0.05, 0.4]][:d]]
+        eye = [[1.0 if i == j else 0.0 for j in range(d)] for i in range(d)]
+        dg = [[[0.45, 0.3, 0.55][i] if i == j else 0.0 for j in range(d)] for i in range(d)]
+        # (2a) X(v,v) -> b(v) | X(v,v) c(v)   with ext = [v, v];   S -> X(u,w) t(u,w)
+        out.append(mk({"N0": d}, {"S": ([], N), "X": (["N0", "N0"], N), "b": (["N0"], T), "c": (["N0"], T), "t": (["N0", "N0"], T)}, "S",
+                      [("S", ["N0", "N0"], [("X", [0, 1]), ("t", [0, 1])], []),
+                       ("X", ["N0"], [("b", [0])], [0, 0]), ("X", ["N0"], [("X", [0, 0]), ("c", [0])], [0, 0])],
+                      {"b": v1, "c": v2, "t": m1}, {"family": "duplicated-external-recursive-linear"}))
+        # non-linear, start arity 2:  X(v,v) -> X(v,v) c(v) X(v,v) | b(v) ;  S(u,w) -> X(u,w)
+        out.append(mk({"N0": d}, {"S": (["N0", "N0"], N), "X": (["N0", "N0"], N), "b": (["N0"], T), "c": (["N0"], T)}, "S",
+                      [("S", ["N0", "N0"], [("X", [0, 1])], [0, 1]),
+                       ("X", ["N0"], [("X", [0, 0]), ("c", [0]), ("X", [0, 0])], [0, 0]), ("X", ["N0"], [("b", [0])], [0, 0])],
+                      {"b": v1, "c": v2}, {"family": "duplicated-external-recursive-nonlinear"}))
+        # (2b) X(u,v) -> e(u,v) | e(u,w) X(w,v) c(w)   with e an equality / diagonal factor stored as a pattern
+        for kind, ew in (("diag", dg), ("eye", eye)):
+            r = mk({"N0": d}, {"S": ([], N), "X": (["N0", "N0"], N), "e": (["N0", "N0"], T), "c": (["N0"], T), "t": (["N0", "N0"], T)}, "S",
+                   [("S", ["N0", "N0"], [("X", [0, 1]), ("t", [0, 1])], []),
+                    ("X", ["N0", "N0"], [("e", [0, 1])], [0, 1]),
+                    ("X", ["N0", "N0", "N0"], [("e", [0, 2]), ("X", [2, 1]), ("c", [2])], [0, 1])],
+                   {"e": ew, "c": v2, "t": m1}, {"family": f"patterned-{kind}-factor-recursive-linear"})
+            r["patterned"] = {"e": kind}
+            out.append(r)
+            r = mk({"N0": d}, {"S": (["N0", "N0"], N), "X": (["N0", "N0"], N), "e": (["N0", "N0"], T), "c": (["N0"], T), "b": (["N0"], T)}, "S",
+                   [("S", ["N0", "N0"], [("X", [0, 1])], [0, 1]),
+                    ("X", ["N0", "N0"], [("e", [0, 1]), ("b", [0])], [0, 1]),
+                    ("X", ["N0", "N0", "N0"], [("X", [0, 2]), ("c", [2]), ("X", [2, 1])], [0, 1])],
+                   {"e": ew, "c": v2, "b": v1}, {"family": f"patterned-{kind}-factor-recursive-nonlinear"})
+            r["patterned"] = {"e": kind}
+            out.append(r)
+    return out
+
+
+def oracle_view(recipe) -> dict:
+    """The recipe the reference semantics is evaluated on: a duplicated external node (ext = [v, v]) is written as two
+    nodes joined by an explicit equality factor "__eq_<label>" (identity weights), which the reference of gen_fgg
+    understands; everything else is unchanged.  The library is always run on the original recipe."""
+    if not any(len(set(r["ext"])) < len(r["ext"]) for r in recipe["rules"]):
+        return recipe
+    g = json.loads(json.dumps({k: v for k, v in recipe.items() if k != "meta"}))
+    g["meta"] = dict(recipe.get("meta") or {})
+    for r in g["rules"]:
+        seen = set()
+        for pos, j in enumerate(list(r["ext"])):
+            if j in seen:
+                lab = r["nodes"][j]
+                new = len(r["nodes"])
+                r["nodes"].append(lab)
+                r["ext"][pos] = new
+                name = f"__eq_{lab}"
+                n = g["node_labels"][lab]
+                g["edge_labels"][name] = {"type": [lab, lab], "terminal": True}
+                g["weights"][name] = [[1.0 if a == b else 0.0 for b in range(n)] for a in range(n)]
+                r["edges"].append({"label": name, "att": [j, new]})
+            else:
+                seen.add(j)
+    return g
+
+
+def build_lib(recipe, sname: str):
+    """the FGG the library is run on: gen_fgg's builder on the ORIGINAL recipe (duplicated externals included), then the
+    terminals named in recipe["patterned"] get a non-dense PatternedTensor as weights."""
+    import torch
+    import fggs
+    from fggs.indices import PatternedTensor, PhysicalAxis
+    fgg = G.build_fgg(recipe, sname, "float64")
+    for t, kind in (recipe.get("patterned") or {}).items():
+        ws = G.convert_weights(recipe, sname)[t]
+        n = len(ws)
+        sr = G.make_semiring(sname, "float64")
+        zero = sr.from_int(0).item()
+        if kind == "eye":
+            pt = PatternedTensor.eye(n, sr)
+            if pt.physical.dim() and pt.physical.stride()[0] == 0:      # give every diagonal entry its own storage
+                pt = PatternedTensor(pt.physical.clone(), pt.paxes, pt.vaxes, pt.default)
+        else:
+            k = PhysicalAxis(n)
+            pt = PatternedTensor(torch.tensor([ws[i][i] for i in range(n)], dtype=torch.float64), (k,), (k, k), zero)
+        fgg.factors[t].weights = pt
+    return fgg
+
+
 def grammars(tier: str, rng) -> List[dict]:
     n_nonrec, n_rec = (150, 90) if tier == "quick" else (2600, 900)
-    out = list(handwritten())
+    out = list(handwritten()) + handwritten_extra()
     seen = {G.canonical(g) for g in out}
     def add(g):
         c = G.canonical(g)
@@ -366,6 +502,8 @@ def expected_grad(recipe, o: Oracle, sname: str, cot: Dict[Tuple[int, ...], floa
     for t in G.terminals(recipe):
         def f(idx, t=t):
             k = lookup[(t, idx)]
+            if (recipe.get("patterned") or {}).get(t) and len(set(idx)) > 1:
+                return None         # not physically backed: PatternedTensor.grad reports NaN ("not computed") there
             if sname == "Log" and o.w[k] == 0.0:
                 return None
             return flat[k]
@@ -406,7 +544,7 @@ def library_grad(recipe, sname: str, method: str, jp: bool, cot: Dict[Tuple[int,
     import fggs
     with warnings.catch_warnings(record=True) as wl:
         warnings.simplefilter("always")
-        fgg = G.build_fgg(recipe, sname, "float64")
+        fgg = build_lib(recipe, sname)
         for f in fgg.factors.values():
             f.weights.requires_grad_()
         try:
@@ -452,6 +590,7 @@ def _shape_tags(recipe) -> str:
 
 
 def _real_tables(recipe):
+    recipe = oracle_view(recipe)
     ref = G.reference_sum_products(recipe, "Real", max_iter=3000)
     tws = G.convert_weights(recipe, "Real")
     tw = {t: G._table(tws[t], G.shape_of(recipe, t)) for t in tws}
@@ -463,6 +602,7 @@ def zero_valued_recursive_nonterminal(recipe) -> bool:
     """some nonterminal of a cyclic SCC has the value exactly 0 at every assignment (e.g. its only base case has
     weight 0): fixed-point iteration never stores an entry for it (0 == absent passes the stopping test), so the
     value returned is a constant zero tensor that is not connected to the weights."""
+    recipe = oracle_view(recipe)
     ref = G.reference_sum_products(recipe, "Real", max_iter=3000)
     for comp in G.sccs(recipe):
         if not G.scc_is_cyclic(recipe, comp):
@@ -511,6 +651,28 @@ def jprecompute_classes(recipe) -> List[str]:
     return sorted(set(out))
 
 
+def valueless_rule_next_to_productive(recipe) -> bool:
+    """some nonterminal has a rule that uses a nonterminal whose value is zero everywhere (so the rule has no value:
+    sum_product_edges returns None for it) next to other rules."""
+    view = oracle_view(recipe)
+    ref = G.reference_sum_products(view, "Real", max_iter=3000)
+    dead = {x for x in ref if all(v == 0 for v in G.flatten(ref[x]))}
+    for x in G.nonterminals(view):
+        rs = [r for r in view["rules"] if r["lhs"] == x]
+        if len(rs) > 1 and any(any(e["label"] in dead for e in r["edges"]) for r in rs):
+            return True
+    return False
+
+
+def nondense_recursive_nonterminal(recipe) -> bool:
+    """a rule of a cyclic SCC has a duplicated external node or a patterned (diagonal) factor: the nonterminal's
+    sum-product is a non-dense PatternedTensor and its cotangent in backward() has NaN as default."""
+    cyc = {x for comp in G.sccs(recipe) if G.scc_is_cyclic(recipe, comp) for x in comp}
+    pat = set(recipe.get("patterned") or {})
+    return any(r["lhs"] in cyc and (len(set(r["ext"])) < len(r["ext"]) or any(e["label"] in pat for e in r["edges"]))
+               for r in recipe["rules"])
+
+
 def input_class(recipe, sname: str, jp: bool, kind: str) -> str:
     if kind == "missing-gradient" and zero_valued_recursive_nonterminal(recipe):
         return "zero-valued-recursive-nonterminal"
@@ -525,6 +687,10 @@ def input_class(recipe, sname: str, jp: bool, kind: str) -> str:
         for c in prio:
             if c in cl:
                 return c
+    if nondense_recursive_nonterminal(recipe):
+        return "non-dense-recursive-nonterminal"
+    if sname == "Log" and valueless_rule_next_to_productive(recipe):
+        return "valueless-rule-next-to-productive-rules"
     if sname == "Log" and zero_valued_rule_entry(recipe):
         return "zero-valued-rule-entry"
     return "other:" + _shape_tags(recipe)
@@ -614,17 +780,18 @@ def check_grammar(recipe, seed_key: str, crosscheck: bool = True):
     stats: Dict[str, int] = {}
     def bump(k):
         stats[k] = stats.get(k, 0) + 1
-    ref = G.reference_sum_products(recipe, "Real", max_iter=3000)
+    view = oracle_view(recipe)
+    ref = G.reference_sum_products(view, "Real", max_iter=3000)
     if ref.status != "finite" or ref.has_inf():
         bump("out-of-scope:reference-not-finite")
         return [], 0, stats, False, False, []
-    o = oracle(recipe)
+    o = oracle(view)
     if o.status != "finite":
         bump("out-of-scope:" + o.status)
         return [], 0, stats, False, False, []
     herr = []
     if crosscheck and G.is_recursive(recipe):
-        n, worst, desc = fd_crosscheck(recipe, o)
+        n, worst, desc = fd_crosscheck(view, o)
         bump("oracle-crosschecked-grammars")
         stats["oracle-crosschecked-entries"] = stats.get("oracle-crosschecked-entries", 0) + n
         if worst > 1.0:
@@ -734,7 +901,7 @@ def run_bounded(ctx: Ctx) -> Report:
 
 def replay_case(case: dict) -> bool:
     recipe = case["recipe"]
-    o = oracle(recipe)
+    o = oracle(oracle_view(recipe))
     if o.status != "finite":
         print("C03 replay: grammar outside the scope (oracle", o.status, ")")
         return False
